@@ -91,3 +91,33 @@ def model_env(model, variables):
         except Exception:
             env[str(v)] = 0.0
     return env
+
+
+def xhair_task(rep, pid, path, timeout_s=40, only=None, jobs=6):
+    """run CrossHair contracts; *_witness functions (post: False) are reachability twins and must be refuted"""
+    from symx import xhair
+    import os
+
+    full = os.path.join(os.path.dirname(os.path.dirname(os.path.abspath(__file__))), path)
+    res = xhair.check_file(full, timeout_s=timeout_s, jobs=jobs, only=only)
+    for r in res:
+        name = f'crosshair/{os.path.basename(path)}:{r["fn"]}'
+        rep.extra.setdefault('crosshair', []).append({'condition': name, 'verdict': r['verdict'], 's': r['seconds']})
+        rep.qs.note('crosshair', r['verdict'], r['seconds'], name)
+        if r['fn'].endswith('_witness'):
+            rep.vac(name + ':reachable', 'sat' if r['verdict'] == 'counterexample' else r['verdict'], 'sat')
+            continue
+        if r['verdict'] == 'confirmed':
+            rep.ob(name, 'unsat')
+        elif r['verdict'] == 'counterexample':
+            rep.replayed += 1
+            ok, detail = xhair.reexecute(full, r['fn'], r['output'])
+            rep.obligations[name] = 'sat'
+            if ok:
+                rep.violation(f'{pid}/{r["fn"]}', f'CrossHair counterexample reproduced on the plain interpreter: {str(detail)[:300]}',
+                              {'task': ['xhair', path, r['fn']], 'detail': detail, 'crosshair_output': r['output'][-400:]})
+            else:
+                rep.inconclusive.append({'name': name, 'why': f'CrossHair counterexample does not reproduce: {str(detail)[:200]}'})
+        else:
+            rep.ob(name, 'unknown', f'CrossHair verdict {r["verdict"]}: {r["output"][-200:]}')
+    return res
